@@ -50,7 +50,7 @@ def run(ctx):
                             "c09_once_sequential", "c09_once", "c09_no_half_init", "c09_unseal_is_its_body", "c09_published",
                             "c09_published_stable", "c09_writers_keep", "c09_stale_replace_refuted",
                             "c09_readyz_iff_unsealed", "c09_readyz_request_independent", "c09_readyz_reachable", "c09_probe_predicate_sound", "c09_readyz_chatty_refuted",
-                            "c09_published_across_restarts", "c09_kept_ca_refuted"])
+                            "c09_published_across_restarts", "c09_kept_ca_refuted", "c09_pubkeys_listed_or_loaded", "c09_life_predicate_sound"])
     gen = ctx.extract()
     files = ["kmd/common.go", "kmd/creds.go", "kmd/c09.go", "kmd/c09conn.go", "kmd/c09pub.go", "kmd/c09aws.go", "kmd/c09ready.go", "kmd/c09life.go", os.path.join(ctx.work, "gen", "mux_gen.go")]
     ok, result, log = ctx.go_harness("cmd/keymasterd", "TestVerif_C09", files, timeout=1500)
